@@ -273,6 +273,87 @@ fn one_case(ctx: &Ctx, case: u64, l: &mut Local) {
             must_reject(l, "aud", 1 + i as u64, &with_kb(Some(api::sign_kb(halg, 0, &p, Some("kb+jwt")))), a, n, 0);
         }
     }
+    // 5b. near misses: the KB-JWT names an aud / nonce that equals the expected one only under some
+    // normalisation (trailing slash, case, blanks, fragment / query, default port, composed vs
+    // decomposed Unicode), and type confusion: a NON-string claim whose JSON text equals the
+    // expected string (20240131 vs "20240131", absent / null vs "null", true vs "true")
+    {
+        let near = |s: &str| -> Vec<String> {
+            let mut v = vec![
+                format!("{s}/"), format!("{s} "), format!(" {s}"), format!("{s}#"), format!("{s}?"), format!("{s}\u{0}"), format!("{s}\n"), s.to_uppercase(), s.to_lowercase(),
+                s.trim_end_matches('/').to_string(), s.trim().to_string(), s.replace("https://", "http://"), s.replace("é", "e\u{301}"), s.replace(":443", ""), format!("\"{s}\""),
+                format!("{s} {s}"), format!("{s},{s}"),
+            ];
+            if let Some(st) = s.strip_suffix('/') {
+                v.push(st.to_string());
+            }
+            v.retain(|x| x != s);
+            v.sort();
+            v.dedup();
+            v
+        };
+        for (i, other) in near(&aud).into_iter().enumerate() {
+            let mut p = honest_payload();
+            p["aud"] = json!(other);
+            must_reject(l, "aud-near-miss", i as u64, &with_kb(Some(api::sign_kb(halg, 0, &p, Some("kb+jwt")))), a, n, 0);
+            // and the other way round: honest KB-JWT, verifier expects the near miss
+            must_reject(l, "aud-near-miss", 100 + i as u64, &parts, Some(&other), n, 0);
+            // aud given as a list containing the near miss / containing the exact value next to others
+            let mut p = honest_payload();
+            p["aud"] = json!([other]);
+            must_reject(l, "aud-near-miss", 200 + i as u64, &with_kb(Some(api::sign_kb(halg, 0, &p, Some("kb+jwt")))), a, n, 0);
+        }
+        for (i, other) in near(&nonce).into_iter().enumerate() {
+            let mut p = honest_payload();
+            p["nonce"] = json!(other);
+            must_reject(l, "nonce-near-miss", i as u64, &with_kb(Some(api::sign_kb(halg, 0, &p, Some("kb+jwt")))), a, n, 0);
+            must_reject(l, "nonce-near-miss", 100 + i as u64, &parts, a, Some(&other), 0);
+        }
+        // type confusion on the claim the verifier compares with its expected TEXT
+        for (i, lit) in ["null", "true", "false", "20240131", "0", "-1", "1.0", "[1]", "{}", "[]", "\"n\""].iter().enumerate() {
+            let val: Value = match serde_json::from_str(lit) {
+                Ok(v) => v,
+                Err(_) => continue,
+            };
+            for (field, fi) in [("nonce", 0u64), ("aud", 1)] {
+                let mut p = honest_payload();
+                p[field] = val.clone();
+                let exp_a = if field == "aud" { Some(*lit) } else { a };
+                let exp_n = if field == "nonce" { Some(*lit) } else { n };
+                // only a confusion when the value is not itself the expected string
+                if val.as_str() == Some(*lit) {
+                    continue;
+                }
+                must_reject(l, "claim-type-confusion", (i as u64) * 4 + fi, &with_kb(Some(api::sign_kb(halg, 0, &p, Some("kb+jwt")))), exp_a, exp_n, 0);
+                if *lit == "null" {
+                    let mut q = honest_payload();
+                    q.as_object_mut().unwrap().remove(field);
+                    must_reject(l, "claim-type-confusion", (i as u64) * 4 + fi + 2, &with_kb(Some(api::sign_kb(halg, 0, &q, Some("kb+jwt")))), exp_a, exp_n, 0);
+                }
+            }
+        }
+        // control for the class: the STRING forms are accepted
+        for lit in ["null", "20240131", "true"] {
+            let mut p = honest_payload();
+            p["nonce"] = json!(lit);
+            let q = with_kb(Some(api::sign_kb(halg, 0, &p, Some("kb+jwt"))));
+            if let Some(enc) = q.encode(fmt, 0) {
+                let v = api::verify(&enc, &resolver, Some((&aud, lit)), fmt);
+                l.evals += 1;
+                if v.out.is_ok() {
+                    l.count("control.literal-looking-nonce.accepted");
+                } else {
+                    l.violate(Violation {
+                        subcheck: "control-rejected".into(),
+                        class: format!("KB-JWT whose nonce is the string {lit:?} ({})", fmt.name()),
+                        observed: v.out.panic_signature().unwrap_or_else(|| v.out.describe()),
+                        case,
+                        detail: json!({"credential": desc, "nonce": lit}),
+                    });
+                }
+            }
+        }
+    }
     // verifier expecting a different aud / nonce (honest presentation)
     {
         let other_aud = format!("{aud}-other");
